@@ -10,7 +10,9 @@ poisoned outside block i - and every cell of every region is classified:
   O2  the coords_i of distinct tasks are distinct full-length integer tuples (=> blocks pairwise disjoint);
   O3  block i after the task is the same whether or not the other blocks were poisoned;
   O4  no attribute of the cube or of any function object changes across a task except the whitelisted
-      diagnostics.
+      diagnostics;
+  O5  (checked by the driver on the recorded coordinates) over all map calls of one calculate() the pool is
+      handed every sub-cube of the scaffold exactly once.
 Finally all tasks are run once, in REVERSE order, from the base contents, so that calculate()
 returns a result that must equal the serial one bit for bit.
 """
@@ -81,7 +83,7 @@ class FramePool:
     def map(self, fn, it):
         items = list(it)
         cells = dict(zip(fn.__code__.co_freevars, [c.cell_contents for c in fn.__closure__]))
-        rec = {"tasks": len(items), "violations": [], "regions": 0}
+        rec = {"tasks": len(items), "violations": [], "regions": 0, "coords": [self.coords_of(x) for x in items]}
         FramePool.log.append(rec)
         if "results" not in cells:
             rec["violations"].append(("monitor", None, "closure has no `results` cell"))
